@@ -665,8 +665,6 @@ func (p *c04PV) call(name string, req c04SB, do func() (error, c04Out)) error {
 		e.fired = true
 		panic(&c04Sentinel{d.At + fmt.Sprintf(":%v:", signed) + c04ReqJSON(req)})
 	}
-	memBefore := e.projLSS(&p.real.LastSignState)
-	_ = memBefore
 	err, out := do()
 	kind := "ok"
 	if err != nil {
@@ -1064,7 +1062,6 @@ func (e *c04Env) drainStats() {
 }
 
 func (e *c04Env) input(op *c04Op) string {
-	cs := e.cs
 	switch op.T {
 	case "start":
 		if e.isProposer(0) {
@@ -1115,7 +1112,6 @@ func (e *c04Env) input(op *c04Op) string {
 	default:
 		return "unknown input"
 	}
-	_ = cs
 	return ""
 }
 
@@ -1283,9 +1279,13 @@ func c04RunOne(t *testing.T, seed int64, run int, s *c04Sched, random int) (evs 
 		}
 	}()
 	e.boot()
+	// the run's first line is its Reset
+	booted := e.evs
+	e.evs = nil
 	e.emit(map[string]interface{}{"ev": "Reset", "kind": "cs", "mem": e.projLSS(&e.fpv.LastSignState), "file": e.projFile(),
 		"proposer0": e.isProposer(0), "proposer1": e.isProposer(1), "future_genesis": s.FutureGenesis,
 		"src": map[bool]string{true: "random", false: "tlc"}[random > 0]})
+	e.evs = append(e.evs, booted...)
 	if random > 0 {
 		e.randomOps(random)
 	} else {
